@@ -13,6 +13,12 @@ joined at a point that the run thread determines under the socket lock.
   * a data link connection (initiator side connects to a named service of the target side), both directions send
     maximum-size I PDUs with MSG_DONTWAIT while the peer's acknowledgements are pending
   * service name lookups: many names at once (SNL batches in both directions)
+  * every 8th configuration idles for 14 more iterations (the run loops' idle pauses against LTO / RWT)
+
+(*) observed while building this (not a C19 matter, reported to the C05/C17 owners): data sent on an accepted
+    socket in the same run loop iteration as accept() is dequeued *before* the CC (the accepted socket is inserted
+    in front of the listening one, ServiceAccessPoint.insert_socket/dequeue), and the connecting side drops I PDUs
+    silently while it is still in state CONNECT.
 """
 import threading
 import time as _time
@@ -45,6 +51,7 @@ class App(object):
         self.done = False
         self.ui_rx = self.srv = self.cli = self.dlc = None
         self.helper = None
+        self.accepted = None
         self.resolvers = []
         self.ui_sent, self.ui_rcvd = [], []          # (tag, n) / (n, ok)
         self.i_sent, self.i_rcvd = [], []
@@ -156,8 +163,10 @@ class App(object):
             data, peer = self.ui_rx.recvfrom()
             self.ui_rcvd.append(bytes(data))
         # connection-oriented traffic
-        if self.side == "t" and self.dlc is None and len(self.srv._tco.recv_queue) > 0:
-            self.dlc = self.srv.accept()
+        if self.side == "t" and self.dlc is None and self.accepted is not None:
+            self.dlc = self.accepted         # one iteration after accept(): the CC is on its way first (*)
+        if self.side == "t" and self.accepted is None and len(self.srv._tco.recv_queue) > 0:
+            self.accepted = self.srv.accept()
         if self.side == "i" and self.dlc is None and self.helper is not None:
             tco = self.cli._tco
             with tco.lock:          # either the helper has not seen the answer yet or it is through
@@ -183,8 +192,8 @@ class App(object):
                     raise
                 self.i_sent.append((60 + self.quota, n))
                 self.quota -= 1
-        if self.side == "i" and j >= self.rounds:
-            self.done = True
+        if self.side == "i" and j >= self.rounds + (14 if self.k % 8 == 3 else 0):
+            self.done = True                 # (every 8th configuration: an idle tail of symmetry PDUs)
 
 
 # ------------------------------------------------------------------------------------------------
